@@ -72,7 +72,14 @@ ADV_PATHS = [b"/tmp/Pss: 7", b"/tmp/Pss: 7 kB", b"/a b (deleted)", b"[heap]", b"
              b"/memfd:buf", b"anon_inode:[io_uring]", b"socket:[12345]", b"/dev/zero", b"/SYSV00000000",
              b"[anon:my name]", b"/tmp/a\tb", b"/tmp/7f00-7f10 r-xp", b"/tmp/12345678-9abcdef0", b"/tmp/x\\012y",
              b"/tmp/ (deleted)", b"/usr/lib/x86_64-linux-gnu/libc.so.6"]
-TRAIL_PATHS = [b"/tmp/x ", b"/tmp/x\t", b"/tmp/a b  ", b"/tmp/x\x1f", b"/tmp/y \x0c"]
+TRAIL_PATHS = [b"/tmp/x ", b"/tmp/x\t", b"/tmp/a b  ", b"/tmp/x\x1f", b"/tmp/y \x0c",
+               # non-ASCII Unicode spaces (NBSP, NEL, EM SPACE, IDEOGRAPHIC SPACE, LINE SEPARATOR) at the ends / inside: str.isspace()
+               # is true of them, bytes.split() does not see them — the name must come back byte for byte
+               b"/tmp/x\xc2\xa0", b"/tmp/x\xc2\x85", b"/tmp/x\xe2\x80\x83", b"/tmp/x\xe3\x80\x80", b"/tmp/x \xc2\xa0 ",
+               b"/tmp/\xe2\x80\xa8x\xe2\x80\xa8", b"/tmp/x\xc2\xa0 (deleted)", b"/tmp/x\xa0", b"/tmp/x\x85"]
+ROLLUP_NAMES = ["Rss", "Pss", "Pss_Dirty", "Pss_Anon", "Pss_File", "Pss_Shmem", "Shared_Clean", "Shared_Dirty", "Private_Clean",
+                "Private_Dirty", "Referenced", "Anonymous", "KSM", "LazyFree", "AnonHugePages", "ShmemPmdMapped", "FilePmdMapped",
+                "Shared_Hugetlb", "Private_Hugetlb", "Swap", "SwapPss", "Locked"]
 COMMON_PATHS = [b"/usr/bin/python3.12", b"/usr/lib/libc.so.6", b"/usr/lib/libm.so.6", b"[heap]", b"[stack]"]
 FLAGS = [b"rd", b"wr", b"ex", b"sh", b"mr", b"mw", b"me", b"ms", b"gd", b"pf", b"dw", b"lo", b"io", b"sr", b"rr",
          b"dc", b"de", b"ac", b"nr", b"ht", b"sf", b"ar", b"wf", b"dd", b"sd", b"mm", b"hg", b"nh", b"mg", b"um", b"uw"]
@@ -208,6 +215,10 @@ def gen_case(rng, family, has_rollup_default):
             "pagesize": 0, "zombie": (rng.random() < 0.5) if n == 0 else (rng.random() < 0.05),
             "hasRollup": has_rollup, "rollup": mode,
             "probe": [[k.hex(), v] for k, v in sorted(probe.items())], "pct": pct}
+    if family == "rollup_record" or (n and rng.random() < 0.1):
+        case["rollupHow"], case["rollupKV"] = gen_rollup_kv(rng, ms)
+        if family == "rollup_record":
+            case["hasRollup"], case["rollup"] = (True, "data") if rng.random() < 0.8 else (has_rollup, mode)
     case["modes"] = gen_modes(rng, case)
     if rng.random() < 0.35:
         case["hist"], case["histModes"] = gen_hist(rng)
@@ -229,6 +240,38 @@ def eff_mode(key, mode, memtype=None):
 def pick_mode(rng, key, memtype=None):
     m = rng.choice(MODES)
     return m if mode_ok(key, m, memtype) else rng.choice(["plain", "oneshot", "warm"])
+
+
+def gen_rollup_kv(rng, ms):
+    """/proc/pid/smaps_rollup as a record of its own (C13_rollup_record): the kernel's own key list (Pss_Anon / Pss_File /
+    Pss_Shmem are printed only there), `Pss` with the sub-kB excess the kernel accumulates (< 1 kB per mapping,
+    C13_rollup_subkb_bound), values unrelated to the mappings, sparse key lists, unknown `Private_*` keys"""
+    sums = {}
+    for m in ms:
+        for k, v, kb in m["kv"]:
+            if kb:
+                name = bytes.fromhex(k).decode()
+                sums[name] = sums.get(name, 0) + v
+    how = rng.choice(["subkb", "subkb", "independent", "sparse"])
+    kv = []
+    if how == "subkb":
+        for name in ROLLUP_NAMES:
+            v = sums.get(name, 0)
+            if name == "Pss":
+                v += rng.randrange(0, max(1, len(ms)))
+            kv.append([name, v])
+        pss = dict(kv)["Pss"]
+        a = rng.randrange(0, pss + 1)
+        f = rng.randrange(0, pss - a + 1)
+        split = {"Pss_Anon": a, "Pss_File": f, "Pss_Shmem": pss - a - f}
+        kv = [[n, split.get(n, v)] for n, v in kv]
+    elif how == "independent":
+        kv = [[name, gen_val(rng, rng.choice(["small", "mixed", "mid", "huge"]))] for name in ROLLUP_NAMES]
+    else:
+        names = [n for n in ROLLUP_NAMES if rng.random() < 0.5] + (["Private_Foo"] if rng.random() < 0.4 else [])
+        rng.shuffle(names)
+        kv = [[name, gen_val(rng, "mixed")] for name in names]
+    return how, [[n.encode().hex(), v, True] for n, v in kv]
 
 
 def gen_modes(rng, case):
@@ -285,7 +328,12 @@ def mutate_raw(rng, smaps, statm, rollup):
     """Safe malformations of rendered content (only shapes the model claims to transcribe)."""
     what = rng.choice(["blank_line", "bare_key", "bare_flags", "nan_value", "short_header", "dup_line", "drop_line",
                        "statm_short", "statm_nan", "rollup_nan", "rollup_bare", "crlf_free_tail", "lead_ws",
-                       "key_line_first", "rollup_extra_pss", "statm_long", "no_trailing_nl", "only_header"])
+                       "key_line_first", "rollup_extra_pss", "statm_long", "no_trailing_nl", "only_header",
+                       "bare_key_before_header", "bare_key_before_header", "near_flags", "ws_kinds"])
+    if what == "bare_key_before_header":
+        # a key line WITHOUT a number right before a header (whose address starts with a decimal digit): the `\s+` of
+        # the three regexes runs over the newline and captures the address digits (C13_regex_crosses_newline)
+        smaps = b"\n".join(l for l in smaps.split(b"\n") if not l.startswith(b"VmFlags:"))
     lines = smaps.split(b"\n")
     body = [i for i, l in enumerate(lines) if l and l.split(None, 1)[0].endswith(b":")]
     heads = [i for i, l in enumerate(lines) if l and not l.split(None, 1)[0].endswith(b":")]
@@ -330,6 +378,21 @@ def mutate_raw(rng, smaps, statm, rollup):
         lines.insert(0, lines[rng.choice(body)])
     elif what == "only_header" and heads:
         lines = [lines[heads[0]]]
+    elif what == "bare_key_before_header":
+        cand = [i for i in body if i + 1 in heads and lines[i + 1][:1].isdigit()]
+        if not cand and heads:       # a single mapping: append a second header
+            lines = [l for l in lines if l] + [lines[heads[0]]]
+            cand = [len(lines) - 2] if len(lines) >= 3 else []
+        for i in (cand if rng.random() < 0.3 else cand[:1] or []):
+            lines[i] = rng.choice([b"Pss:", b"Swap:", b"Private_Dirty:", b"Private_Clean:   ", b"Swap: \t", b"Pss:\r", b"Private_Hugetlb:\x0b\x0c"])
+    elif what == "near_flags" and body:
+        # tokens that merely contain / end with / start with `VmFlags:` (only a token that STARTS with it is skipped)
+        lines.insert(rng.choice(body), rng.choice([b"XVmFlags: rd ex", b"VmFlags:x: rd", b"VmFlags: rd", b"xVmFlags: 12 kB", b"VmFlagsX: rd",
+                                                   b"VmFlags:7: rd", b"_VmFlags: mr mw"]))
+    elif what == "ws_kinds" and body:
+        i = rng.choice(body)
+        k, _, v = lines[i].partition(b":")
+        lines[i] = k + b":" + rng.choice([b"\t", b"\x0b", b"\x0c\t ", b"\r", b" \r \t"]) + v.strip()
     out = b"\n".join(lines)
     if what == "no_trailing_nl":
         out = out.rstrip(b"\n")
@@ -704,7 +767,7 @@ def compare_hist(res, inp, impl, drv_out, findings=()):
 
 
 def strip_case(c):
-    return {k: v for k, v in c.items() if k not in ("family",)}
+    return {k: v for k, v in c.items() if k not in ("family", "rollupHow")}
 
 
 def run_cases(ctx, impl, cases, res, tag_stats=True):
@@ -756,6 +819,11 @@ def record(res, c, o, im, kind):
             res.count("feature:value>=1e7kB")
         if n:
             res.count("keys:" + ("uniform" if o.get("uniform") else "nonuniform-never-stale" if o.get("nostale") else "nonuniform-stale"))
+    rd = o.get("readings")
+    if rd:
+        res.count("regex:findall-%s-line-anchored-reading" % ("equals" if rd["regex"] == {"ok": rd["lines"]} else "DIFFERS-from"))
+    if c.get("rollupKV") is not None:
+        res.count("rollup-record:%s%s" % (c.get("rollupHow", "given"), "" if o.get("rollupRec") else " (not the source)"))
     for st, d, v in zip(c.get("hist") or [], o.get("hist") or [], im.get("hist") or []):
         res.count("hist:" + st["op"])
         if st["op"] == "pct":
@@ -780,8 +848,8 @@ def _key(c):
     return hashlib.sha1(json.dumps(strip_case(c), sort_keys=True).encode()).hexdigest()
 
 
-FAMILIES = ["basic", "basic", "repeat", "adversarial", "optional", "deleted", "single", "empty", "nonuniform",
-            "trailing", "adversarial", "repeat", "nonuniform_ok"]
+FAMILIES = ["basic", "rollup_record", "repeat", "adversarial", "optional", "deleted", "single", "empty", "nonuniform",
+            "trailing", "adversarial", "repeat", "nonuniform_ok", "basic", "rollup_record", "trailing"]
 
 
 def corpus(impl):
@@ -814,6 +882,21 @@ def corpus(impl):
         case([m(b"/x", kv=[("Rss", 0), ("Pss", 1)]), m(b"/y", kv=[("Pss", 2), ("Swap", 3)], lo=0x500000),
               m(b"/z", kv=[("Rss", 9), ("Swap", 0)], lo=0x600000), m(None, kv=[("Rss", 0)], lo=0x700000)], fam="nonuniform_ok"),
     ]
+    def rk(*kv):
+        return [[k.encode().hex(), v, True] for k, v in kv]
+    # the roll-up as a record of its own: Pss above the per-mapping sum (sub-kB excess), keys only the roll-up has, an unknown
+    # Private_* key, no Pss / Swap line at all, the record present but not the source (ENOENT / no roll-up support)
+    two = [m(b"/x"), m(None, lo=0x500000)]
+    for extra in ({"rollupKV": rk(("Rss", 16), ("Pss", 9), ("Pss_Anon", 5), ("Pss_File", 4), ("Pss_Shmem", 0), ("Private_Clean", 6),
+                                  ("Private_Dirty", 10), ("Private_Hugetlb", 4), ("Swap", 14), ("SwapPss", 14))},
+                  {"rollupKV": rk(("Private_Foo", 7), ("Pss_Anon", 3), ("SwapPss", 1))},
+                  {"rollupKV": rk(("Swap", 2**40), ("Pss", 0), ("Private_Dirty", 99_999_999))},
+                  {"rollupKV": rk(("Pss", 123)), "rollup": "enoent"}, {"rollupKV": rk(("Pss", 123)), "hasRollup": False},
+                  {"rollupKV": []}):
+        c = case(json.loads(json.dumps(two)), fam="rollup_record")
+        c.update(extra)
+        c["rollupHow"] = "corpus"
+        out.append(c)
     out.append(stale_witness())
     h = stale_witness()
     h["hist"] = h["hist"][:2] + [{"op": "meminfo", "kv": mi(4)}, {"op": "pct", "memtype": "uss"}, {"op": "vm"},
@@ -889,6 +972,26 @@ def exhaustive_cases(impl):
                          {"op": "meminfo", "kv": mi(2**21)}, {"op": "pct", "memtype": "rss"}, {"op": "vm"}, {"op": "pct", "memtype": "swap"}]
             c["histModes"] = [None, mode, mode, None, mode, None, mode]
             out.append(c)
+    return out
+
+
+BARE_SWAP = (b"1-2 r 0 0:0 0 \nSwap:\n00400000-00401000 r 0 0:0 0 \nPss: 1 kB\n")     # Props/C13.lean `bareSwap`
+
+
+def raw_corpus(impl):
+    """fixed malformed files: the witness of C13_regex_crosses_newline and its relatives"""
+    out = []
+    for name, smaps in (("bare_swap_witness", BARE_SWAP),
+                        ("bare_private", b"1-2 r 0 0:0 0 \nPrivate_Dirty:\n  \n77 kB\nPrivate_Clean: 1 kB\n"),
+                        ("bare_pss_last", b"1-2 r 0 0:0 0 \nPss:\n"),
+                        ("pss_then_digits_line", b"1-2 r 0 0:0 0 \nPss: \n\nPss: 7 kB\nPss:9\n"),
+                        ("private_two_colons", b"1-2 r 0 0:0 0 \nPrivate_x: 1: 2: a\nPrivate:\n 33\nPrivate_y:  4 kB\n"),
+                        ("xvmflags", b"1-2 r 0 0:0 0 \nRss: 4 kB\nXVmFlags: rd ex\n"),
+                        ("vmflags_suffix", b"1-2 r 0 0:0 0 \nRss: 4 kB\nVmFlags:x: rd ex\nPss: 3 kB\n")):
+        out.append({"op": "raw", "family": "raw:corpus:" + name, "smaps": smaps.hex(), "statm": b"3 2 1 0 0 0 0\n".hex(),
+                    "rollupData": b"".hex(), "pagesize": impl.pagesize, "zombie": False, "hasRollup": name != "bare_pss_last",
+                    "rollup": "enoent", "probe": [], "pct": [{"memtype": "swap", "cached": None, "vmTotal": 2**30}],
+                    "modes": {"info": "plain", "full": "plain", "maps": "plain", "grouped": "plain", "pct": ["plain"], "warmups": []}})
     return out
 
 
@@ -991,6 +1094,19 @@ def validate_renderers(ctx, res):
         line["hist"] = [{"op": "meminfo", "kv": kv}, {"op": "vm"}]
     except (OSError, ValueError, IndexError) as e:
         res.notes.append("meminfo renderer validation skipped: %s" % e)
+    live_rollup = None
+    try:
+        with open("/proc/self/smaps_rollup", "rb") as f:
+            live_rollup = f.read()
+        rl = live_rollup.split(b"\n")
+        a, b = rl[0].split()[0].split(b"-")
+        line["rollupRange"] = [int(a, 16), int(b, 16)]
+        line["rollupKV"] = [[t[0][:-1].hex(), int(t[1]), len(t) > 2 and t[2] == b"kB"] for t in (l.split() for l in rl[1:] if l)]
+    except (OSError, ValueError, IndexError) as e:
+        res.notes.append("roll-up renderer validation skipped: %s" % e)
+        live_rollup = None
+        line.pop("rollupRange", None)
+        line.pop("rollupKV", None)
     o = ctx.driver().batch([line])[0]
     if "bad" in o:
         raise InfraError("renderer validation: driver rejected the live smaps: %s" % o)
@@ -1015,13 +1131,12 @@ def validate_renderers(ctx, res):
         a, b = bytes.fromhex(o["files"]["smaps"]), real
         i = next((k for k in range(min(len(a), len(b))) if a[k] != b[k]), min(len(a), len(b)))
         res.notes.append("renderer validation FAILED at byte %d: rendered %r vs kernel %r" % (i, a[max(0, i - 40):i + 40], b[max(0, i - 40):i + 40]))
-    try:
-        with open("/proc/self/smaps_rollup", "rb") as f:
-            rl = f.read().split(b"\n")[0]
-        hdr = bytes.fromhex(o["files"]["rollup"]).split(b"\n")[0]
-        res.extra["renderer_validation"]["rollup_header_shape_equal"] = (rl.split()[1:] == hdr.split()[1:] and len(rl) == len(hdr))
-    except OSError:
-        pass
+    if live_rollup is not None:
+        ok_roll = bytes.fromhex(o["files"]["rollup"]) == live_rollup
+        res.extra["renderer_validation"]["rollup_bytes_equal"] = ok_roll
+        res.extra["renderer_validation"]["live_rollup_keys"] = [bytes.fromhex(e[0]).decode() for e in line["rollupKV"]]
+        if not ok_roll:
+            res.notes.append("roll-up renderer validation FAILED: rendered %r vs kernel %r" % (bytes.fromhex(o["files"]["rollup"])[:300], live_rollup[:300]))
 
 
 # ------------------------------------------------------------------------------ correspondence
@@ -1062,7 +1177,7 @@ def correspond(ctx, res):
             lines += run_cases(ctx, impl, cases[a:a + CH], res)
         raws, nl = raw_cases(ctx, impl, ctx.n(120, 5000))
         lines += nl
-        lines += run_cases(ctx, impl, raws, res)
+        lines += run_cases(ctx, impl, raw_corpus(impl) + raws, res)
         res.exhaustive = ("%d enumerated cases: all 18 memtypes (10 valid, 8 invalid) x 6 total-memory configurations; all 16 "
                           "permission strings; hasRollup x {data, enoent, esrch} x zombie x {one mapping, empty}; all 8 call modes x "
                           "{memory_info, memory_full_info, memory_maps(False), memory_maps(True), memory_percent of all 10 memtypes + "
